@@ -1081,10 +1081,9 @@ class Driver(object):
                 if nb != e['bodyRuns']:
                     self._mm(out, 'pbodies', x, e['bodyRuns'], nb, 'wrapped body executed during replay')
             elif e['kind'] == 'pctl' and st['kind'] == 'playdata':
-                got = jr['seen']
-                if exp_seen[0] == 'data':
-                    if not (got[0] == 'val' and same_value(got[1], ctx.user_data)):
-                        self._mm(out, 'pseen', x, exp_seen, repr(got)[:100], 'play_data')
+                got = jr['token']        # projected when it was observed (a later step may mutate the object)
+                if exp_seen[0] == 'data' and got != exp_seen:
+                    self._mm(out, 'pseen', x, exp_seen, repr(got)[:100], 'play_data')
         obs['play'] = ('ok', 'Playback') if seen[0] == 'ok' else self._seen_token(('abort', seen[1]))
         obs['steps'] = [jr['token'] for jr in ctx.journal]
         obs['bodies'] = [sorted((b['alias'], b.get('inner', False)) for b in jr['bodies']) for jr in ctx.journal]
@@ -1128,6 +1127,8 @@ class Driver(object):
 
     def _replay_seen_token(self, seen, st):
         t, obj = seen
+        if st.get('kind') == 'playdata' and t == 'val':
+            return ('data', 'd1') if same_value(obj, self.ctx.user_data) else ('val', ('?', repr(obj)[:80]))
         if t == 'val':
             if st['kind'] == 'in':
                 if same_value(obj, self.ctx.subst_value):
